@@ -273,8 +273,10 @@ def run_state_pairs(ctx, C, seed, thorough):
     rng = ctx.rng
     names = list(USES) + MELODIES[: (7 if thorough else 3)] + CORE_NAMES
     sources, a_idx, b_idx = [], {}, {}
+    roles_of = {}
     for n in names:
-        roles = list(A_ROLES)
+        roles = list(A_ROLES) if thorough else rng.sample(list(A_ROLES), 8)       # quick: 8 of the 14 roles per name (seeded)
+        roles_of[n] = roles
         for role in roles:
             a_idx[(n, role)] = len(sources)
             sources.append(a_script(n, role))
@@ -290,7 +292,7 @@ def run_state_pairs(ctx, C, seed, thorough):
     # sessions: per name  reset, B, (A_role, B)*   - and interleaved  p A, p B, e A, e B  for a sample of roles
     ops, meta = [], []
     for n in names:
-        roles = list(A_ROLES)
+        roles = list(roles_of[n])
         rng.shuffle(roles)
         ops.append(["reset"]); meta.append(None)
         ops.append(["t", b_idx[n]]); meta.append(("B-first", n, None))
@@ -304,7 +306,7 @@ def run_state_pairs(ctx, C, seed, thorough):
         meta += [None, None, None, ("A-interleaved", n, role), ("B-interleaved", n, role)]
     got = run_ops(C, sources, ops, seed)
     ev = nt = 0
-    dist = {"names": names, "roles": list(A_ROLES), "positions_in_B": POSITIONS, "A_scripts": len(a_idx), "B_scripts": len(b_idx),
+    dist = {"names": names, "roles": list(A_ROLES), "roles_per_name": {n: len(r) for n, r in roles_of.items()}, "positions_in_B": POSITIONS, "A_scripts": len(a_idx), "B_scripts": len(b_idx),
             "A_scripts_rejected_by_the_parser": sum(1 for (k, i) in a_idx.items() if not ref[i]["ok"]),
             "B_scripts_rejected_by_the_parser": sorted(n for n, i in b_idx.items() if not ref[i]["ok"]), "session_ops": len(ops), "failing_pairs": 0}
     reported = set()
